@@ -94,6 +94,26 @@ pub fn claims(bank: &Bank, pool_key: &Pubkey, acc: &mut Acc) -> Vec<(String, Str
     if nonzero > 0 {
         acc.count("claim_checks_with_liquidity");
     }
+    // how close the observed states come to the boundary of the inequality (evidence only)
+    let slack = |v: u64, c: &BigUint| -> &'static str {
+        let v = BigUint::from(v);
+        if v < *c {
+            "short"
+        } else {
+            let d = v - c;
+            if d.is_zero() {
+                "exact"
+            } else if d <= BigUint::from(positions.len() as u64 + 1) {
+                "within_rounding"
+            } else {
+                "loose"
+            }
+        }
+    };
+    let (sa, sb) = (slack(va, &claim_a), slack(vb, &claim_b));
+    acc.count(&format!("claim_slack_a_{sa}"));
+    acc.count(&format!("claim_slack_b_{sb}"));
+    acc.situation(format!("claims:pos{}:a_{sa}:b_{sb}:tick{}", super::bucket(nonzero), pool.tick_current_index.div_euclid(150_000)));
     if BigUint::from(va) < claim_a {
         out.push(("claims_exceed_vault_a".into(), format!("vault A holds {va} but outstanding claims are {claim_a} ({} positions)", positions.len())));
     }
